@@ -41,7 +41,7 @@ func c03Alphabet() []Req {
 		noargReq(opReadDirEntry), noargReq(opReadDirEntryV2), noargReq(opReadDir),
 		mkReq(opStatFile, "/f.bin"), mkReq(opStatFile, "/nope"), mkReq(opStatFile, "/d2"),
 		mkReq(opOpenFile, "/f.bin"), mkReq(opOpenFile, "/nope"), mkReq(opOpenFile, "/d2/b.bin"), mkReq(opOpenFile, "/CLOSEFILE"),
-		rdReq(0, 100), rdReq(4990, 100), rdReq(6000, 10), rdReq(17, 0),
+		rdReq(0, 100), rdReq(100, 50), rdReq(4990, 100), rdReq(6000, 10), rdReq(17, 0),
 		rdcReq(10, 20), rdcReq(4990, 100), cdReq(0, 1),
 		mkReq(opCreateFile, "/w/new.bin"), mkReq(opCreateFile, "/w/old.txt"), mkReq(opCreateFile, "/nodir/x"),
 		wrReq([]byte{1, 2, 3}), wrReq(nil), wrReq(big),
@@ -132,7 +132,7 @@ func TestC03(t *testing.T) {
 		if allow {
 			bi = 1
 		}
-		if rep[bi] != nil && d == (Delivery{}) && (nrun+int(r.Seed))%slice == 0 {
+		if rep[bi] != nil && d.plain() && (nrun+int(r.Seed))%slice == 0 {
 			if allow && mut {
 				cw.resetW()
 			}
